@@ -230,12 +230,16 @@ def decode_adaptive(c, r):
 
 def decode_simple(c, r):
     names = [e[0] for e in r["log"]]
-    if names != ["vector_norm", "vector_norm"]:
-        return None, f"call sequence {names} != 2 x vector_norm"
+    if names not in (["vector_norm", "vector_norm", "where"], ["vector_norm", "vector_norm"]):
+        return None, f"call sequence {names} != vector_norm, vector_norm, where"
     if len(r["vf"]) != 1:
         return None, f"{len(r['vf'])} vector-field evaluations, expected 1"
     L = r["log"]
-    return {"y0_seen": L[0][1][0], "d0": L[0][2], "f0_seen": L[1][1][0], "d1": L[1][2], "f0": r["vf"][0][2]}, None
+    o = {"y0_seen": L[0][1][0], "d0": L[0][2], "f0_seen": L[1][1][0], "d1": L[1][2], "f0": r["vf"][0][2],
+         "cond": None}
+    if len(L) == 3:      # np.where(norm_y0 < 1e-5, 1e-6, scale * norm_y0 / norm_dy0)
+        o.update({"cond": L[2][1][0], "guardval": L[2][1][1], "quot": L[2][1][2], "where_out": L[2][2]})
+    return o, None
 
 
 def term_adaptive(c, o):
@@ -318,17 +322,27 @@ def compare_adaptive(c, o, q):
 
 
 def compare_simple(c, o, q, result):
-    dt0, ok_u0, ok_f0 = q
+    """Returns (mismatch or None, tie: bool)."""
+    b, dt0, ok_u0, ok_f0 = q
     if o["y0_seen"] != c["y0"]:
-        return "first norm is not taken of ravel(u0)"
+        return "first norm is not taken of ravel(u0)", False
     if o["f0_seen"] != o["f0"]:
-        return "second norm is not taken of ravel(f(u0))"
+        return "second norm is not taken of ravel(f(u0))", False
     for nm, d, okf in (("|u0|", o["d0"], ok_u0), ("|f0|", o["d1"], ok_f0)):
         if okf != 1:
-            return f"{nm}: implementation's norm {d!r}, squared, is not the exact sum of squares (rel {RTOL})"
+            return f"{nm}: implementation's norm {d!r}, squared, is not the exact sum of squares (rel {RTOL})", False
+    if o["cond"] is None:
+        if b == 1:
+            return (f"guard branch: the implementation does not guard (no np.where) but the model takes the "
+                    f"norm_y0 < 1e-5 branch (|u0|={o['d0']!r}): implementation {result!r} vs model {float(dt0)!r}"), False
+    elif bool(o["cond"]) != (b == 1):
+        if near(o["d0"], 1e-5):
+            return None, True
+        return f"guard branch: implementation {bool(o['cond'])} vs model {b == 1} (|u0|={o['d0']!r})", False
     if not relclose(result, dt0, atol=1e-320):
-        return f"dt0: implementation {result!r} vs model scale*|u0|/(|f0|+nugget) = {float(dt0)!r}"
-    return None
+        return (f"dt0: implementation {result!r} vs model "
+                f"{'1e-6 (guard)' if b == 1 else 'scale*|u0|/(|f0|+nugget)'} = {float(dt0)!r}"), False
+    return None, False
 
 
 # ------------------------------------------------------------------- the property's predicate
@@ -468,7 +482,12 @@ def main():
         o, why = obs[i]
         res = r["result"]
         sig = classify(c, r, o)
-        branch = "-" if (o is None or c["helper"] == "dt0") else f"{int(bool(o['cond1']))}{int(bool(o['cond2']))}"
+        if o is None:
+            branch = "-"
+        elif c["helper"] == "dt0":
+            branch = "unguarded" if o["cond"] is None else f"guard{int(bool(o['cond']))}"
+        else:
+            branch = f"{int(bool(o['cond1']))}{int(bool(o['cond2']))}"
         ck.count(key, nontrivial=not (c["ukind"] == "zero" and c["fkind"] == "zero"),
                  sample={"case": c, "result": res}, helper=c["helper"], ukind=c["ukind"], fkind=c["fkind"],
                  struct=c["struct"], n=c["n"], branches=branch, rate=c.get("rate", "-"),
@@ -497,7 +516,7 @@ def main():
             if isinstance(mvals[term_of[i]], str):
                 n_evalfail += 1
             else:
-                bad_corr = bad_corr or (c, "the model has no value (zero scale) but the implementation returned one", r)
+                bad_corr = bad_corr or (c, "the model has no value (division by zero) but the implementation returned one", r)
             continue
         if c["helper"] == "dt0_adaptive":
             mism, tie = compare_adaptive(c, o, q)
@@ -505,7 +524,10 @@ def main():
                 n_tie += 1
                 continue
         else:
-            mism = compare_simple(c, o, q, res)
+            mism, tie = compare_simple(c, o, q, res)
+            if tie:
+                n_tie += 1
+                continue
         n_cmp += 1
         if mism:
             bad_corr = bad_corr or (c, mism, r)
